@@ -566,7 +566,7 @@ func luaRepro(f *fnRec, required rt.ComplianceFlags, tp tuple, sp int) string {
 	case 8:
 		call = "return load(\"return f(...)\", \"=c08\", \"t\", {f = f})(" + args + ")"
 	case 9:
-		call = "-- (Go API: RuntimeContextDef{RequiredFlags, GCPolicy: IsolateGCPolicy}; in Lua a kill limit gives the context its own finalizer pool)\n  setmetatable({}, {__gc = function() print(pcall(f" + map[bool]string{true: ", ", false: ""}[args != ""] + args + ")) end})"
+		call = "setmetatable({}, {__gc = function() print(pcall(f" + map[bool]string{true: ", ", false: ""}[args != ""] + args + ")) end})"
 	}
 	fmt.Fprintf(&sb, "print(runtime.callcontext({flags = %q}, function()\n  %s\nend))", strings.Join(required.Names(), " "), call)
 	return sb.String()
